@@ -143,6 +143,8 @@ fn dump_crate<'tcx>(tcx: TyCtxt<'tcx>) -> J {
     let mut foreign = Vec::new();
     let mut foreign_missing = Vec::new();
     let mut foreign_index = Vec::new();
+    let mut foreign_adts = Vec::new();
+    let mut foreign_adt_seen = std::collections::HashSet::new();
     let index_all = std::env::var("SSFACTS_FOREIGN_INDEX").is_ok();
     if let Ok(list) = std::env::var("SSFACTS_FOREIGN") {
         let wanted: Vec<String> =
@@ -188,6 +190,9 @@ fn dump_crate<'tcx>(tcx: TyCtxt<'tcx>) -> J {
                             }
                         }
                         DefKind::Struct | DefKind::Enum => {
+                            if foreign_adt_seen.insert(did) {
+                                foreign_adts.push(cx.dump_adt(did));
+                            }
                             for &imp in tcx.inherent_impls(did).iter() {
                                 for &a in tcx.associated_item_def_ids(imp).iter() {
                                     if matches!(tcx.def_kind(a), DefKind::AssocFn) {
@@ -240,6 +245,7 @@ fn dump_crate<'tcx>(tcx: TyCtxt<'tcx>) -> J {
         ("foreign", J::Arr(foreign)),
         ("foreign_missing", J::Arr(foreign_missing)),
         ("foreign_index", J::Arr(foreign_index)),
+        ("foreign_adts", J::Arr(foreign_adts)),
     ])
 }
 
@@ -434,6 +440,9 @@ impl<'tcx> Cx<'tcx> {
                 } || ty.has_non_region_param();
                 if let Const::Unevaluated(u, _) = c {
                     o.push(("named", s(tcx.def_path_str(u.def))));
+                    if let Some(p) = u.promoted {
+                        o.push(("promoted", J::Int(p.as_usize() as i128)));
+                    }
                 }
                 if !generic {
                     match ty.kind() {
@@ -676,7 +685,7 @@ impl<'tcx> Cx<'tcx> {
         let tcx = self.tcx;
         let env = ty::TypingEnv::post_analysis(tcx, def_id);
         let kind = tcx.def_kind(def_id);
-        let mut o: Vec<(&str, J)> = vec![
+        let mut o: Vec<(&'static str, J)> = vec![
             ("path", s(tcx.def_path_str(def_id))),
             ("kind", s(match kind {
                 DefKind::Fn => "fn",
@@ -727,6 +736,28 @@ impl<'tcx> Cx<'tcx> {
                 o.push(("in_trait", s(tcx.def_path_str(tr))));
             }
         }
+        self.body_json(def_id, body, &mut o);
+        if !promoted_consts.is_empty() {
+            o.push(("promoted_consts", J::Arr(promoted_consts)));
+        }
+        if local && matches!(kind, DefKind::Fn | DefKind::AssocFn | DefKind::Closure) {
+            let promoted = tcx.promoted_mir(def_id);
+            let mut pb = Vec::new();
+            for p in promoted.iter() {
+                let mut po: Vec<(&str, J)> = vec![("nargs", J::Int(0))];
+                self.body_json(def_id, p, &mut po);
+                pb.push(obj(po));
+            }
+            if !pb.is_empty() {
+                o.push(("promoted", J::Arr(pb)));
+            }
+        }
+        obj(o)
+    }
+
+    fn body_json(&self, def_id: DefId, body: &Body<'tcx>, o: &mut Vec<(&'static str, J)>) {
+        let tcx = self.tcx;
+        let env = ty::TypingEnv::post_analysis(tcx, def_id);
         // locals
         let mut names: Vec<Option<String>> = vec![None; body.local_decls.len()];
         for vdi in &body.var_debug_info {
@@ -884,9 +915,5 @@ impl<'tcx> Cx<'tcx> {
             ]));
         }
         o.push(("blocks", J::Arr(blocks)));
-        if !promoted_consts.is_empty() {
-            o.push(("promoted_consts", J::Arr(promoted_consts)));
-        }
-        obj(o)
     }
 }
